@@ -37,6 +37,10 @@ def concurrency_safe_write(object_to_write, filename, write_func):
     return temporary_filename
 
 
+class _UnpicklableOutput(Exception):
+    """The result of a call cannot be pickled: nothing is stored for it."""
+
+
 class StoreBackendBase(metaclass=ABCMeta):
     """Helper Abstract Base Class which defines all methods that
     a StorageBackend must implement."""
@@ -213,8 +217,13 @@ class StoreBackendMixin(object):
                             f"exception. Exception: {e}.",
                             FutureWarning,
                         )
+                        # Do not publish the partial pickle under the final
+                        # name.
+                        raise _UnpicklableOutput() from e
 
             self._concurrency_safe_write(item, filename, write_func)
+        except _UnpicklableOutput:
+            pass
         except Exception as e:  # noqa: E722
             warnings.warn(
                 "Unable to cache to disk. Possibly a race condition in the "
